@@ -27,6 +27,7 @@ from twisted.python import failure  # noqa: E402
 from zope.interface import implementer  # noqa: E402
 
 from .core import HarnessError, short  # noqa: E402
+from .net import Pipe, RawPeer  # noqa: E402
 
 FRAMEWORK = "tx"
 
@@ -203,6 +204,11 @@ class SimTxTransport:
         self.connected = False
         self.reading = False
         self.lost_reason = reason
+        if not rst and len(self.link_in.buf) > 0 and not self.link_out.fin:
+            # closing a socket with unread received data makes the kernel send RST, not FIN
+            rst = self.run.ch.flag("rst-on-close-unread", 0.3)
+            if rst:
+                self.run.fault("rst-on-close-with-unread-data")
         if rst:
             self.link_out.reset()
         else:
@@ -246,56 +252,6 @@ class SimTxTransport:
         self._connection_lost(failure.Failure(error.ConnectionLost()), True)
 
 
-class Pipe:
-    """One direction of a TCP stream: FIFO of octets in flight plus its end marker."""
-
-    def __init__(self, run, name):
-        self.run = run
-        self.name = name
-        self.buf = bytearray()
-        self.fin = False  # sender closed gracefully (after buf)
-        self.rst = False  # sender reset
-        self.gone = False  # receiver no longer reads (closed/aborted)
-        self.stalled = False
-        self.total = 0
-        self.delivered = 0
-        self.ended = False  # end marker consumed by receiver
-        self.sink = None  # RawPeer consuming this pipe instantly
-
-    def push(self, data):
-        if self.fin or self.rst:
-            return
-        self.total += len(data)
-        if self.gone:
-            return
-        if self.sink is not None:
-            self.sink.on_data(data)
-            return
-        self.buf += data
-
-    def close_write(self):
-        if not self.rst and not self.fin:
-            self.fin = True
-            if self.sink is not None:
-                self.sink.on_fin()
-
-    def reset(self):
-        if not self.rst:
-            self.rst = True
-            if self.sink is not None:
-                self.sink.on_rst()
-
-    def receiver_gone(self):
-        self.gone = True
-        self.buf = bytearray()
-
-    def take(self, k):
-        chunk = bytes(self.buf[:k])
-        del self.buf[:k]
-        self.delivered += len(chunk)
-        return chunk
-
-
 def connect_pair(run, reactor, client_factory, server_factory, names=("C", "S")):
     """Build both protocols, join them with two pipes, call makeConnection on both
     (server first, as accept() precedes the client's connect callback or not is
@@ -311,43 +267,6 @@ def connect_pair(run, reactor, client_factory, server_factory, names=("C", "S"))
     ts.protocol = ps
     tc.protocol = pc
     return tc, ts, pc, ps, c2s, s2c
-
-
-class RawPeer:
-    """Scripted byte-level peer standing in for the remote TCP endpoint."""
-
-    def __init__(self, run, name="P"):
-        self.run = run
-        self.name = name
-        self.link_out = None
-        self.link_in = None
-        self.received = bytearray()
-        self.closed = False
-        self.saw_fin = False
-        self.saw_rst = False
-
-    def on_data(self, data):
-        self.received += data
-
-    def on_fin(self):
-        self.saw_fin = True
-        self.run.log("peer-saw-fin")
-
-    def on_rst(self):
-        self.saw_rst = True
-        self.run.log("peer-saw-rst")
-
-    def send(self, data):
-        self.run.log("peer-send", len(data), short(data))
-        self.link_out.push(data)
-
-    def fin(self):
-        self.link_out.close_write()
-
-    def rst(self):
-        self.link_out.reset()
-        self.link_in.receiver_gone()
-        self.closed = True
 
 
 def connect_raw(run, reactor, factory, is_server, name="E"):
@@ -379,6 +298,10 @@ class SimEndpoint:
 
 def make_connection(t):
     t.protocol.makeConnection(t)
+
+
+def call(world, fn, *a):
+    return fn(*a)
 
 
 def loop_actions(world):
